@@ -3,7 +3,7 @@
    that completes no signature reaches no signature-dispatched responder (UDP: the
    DNS fallback only; TCP: no payload), an identified one reaches the responder of
    its protocol id; the client information (addresses, ports) plays no part. *)
-From MS Require Import Smack Proto Spec.AppView Spec.C10 Proofs.Tactics.
+From MS Require Import Smack Proto Spec.AppView Spec.C10 Proofs.Tactics Proofs.Pending.
 
 Lemma udp_id_tbl_eq E p : udp_id E p = udp_id_tbl (e_proto_tbl E) p.
 Proof. reflexivity. Qed.
@@ -38,20 +38,19 @@ Proof. intros H. rewrite dispatch_udp, H. reflexivity. Qed.
 (* first segment of a TCP flow *)
 Theorem dispatch_tcp_none E clk ci p : tcp_first_id E p = None ->
   exists st, proto_repl_tcp E clk ci tcb_new p =
-             Ok (ci, {| t_smack := st; t_proto := PROTO_NONE; t_pstate := None |}, None).
+             Ok (ci, {| t_smack := st; t_proto := PROTO_NONE; t_pstate := None;
+                        t_pending := if lenN p <=? PENDING_MAX then p else [] |}, None).
 Proof.
-  unfold tcp_first_id, proto_repl_tcp. cbn [t_proto tcb_new t_smack t_pstate].
-  change (PROTO_NONE =? PROTO_NONE) with true. cbv iota.
+  unfold tcp_first_id. rewrite proto_repl_tcp_first.
   destruct (search_next (e_proto_tbl E) BASE_STATE p) as [[id st] n]. intros ->. exists st. reflexivity.
 Qed.
 Theorem dispatch_tcp_some E clk ci p id : tcp_first_id E p = Some id ->
   exists st, proto_repl_tcp E clk ci tcb_new p =
-    (let tc1 := {| t_smack := st; t_proto := id; t_pstate := None |} in
+    (let tc1 := {| t_smack := st; t_proto := id; t_pstate := None; t_pending := [] |} in
      do r <- dispatch E clk ci id (Some tc1) p;
      let '(ci', t', out) := r in Ok (ci', match t' with Some x => x | None => tc1 end, out)).
 Proof.
-  unfold tcp_first_id, proto_repl_tcp. cbn [t_proto tcb_new t_smack t_pstate].
-  change (PROTO_NONE =? PROTO_NONE) with true. cbv iota.
+  unfold tcp_first_id. rewrite proto_repl_tcp_first.
   destruct (search_next (e_proto_tbl E) BASE_STATE p) as [[i st] n]. intros ->. exists st. reflexivity.
 Qed.
 
